@@ -360,6 +360,12 @@ pub assume_specification<T: Clone> [<[T]>::fill] (s: &mut [T], v: T)
 pub uninterp spec fn tz(x: usize) -> u32;
 pub assume_specification [usize::trailing_zeros] (x: usize) -> (r: u32)
     ensures r == tz(x), r <= 64;
+/// trailing_zeros(2^k) == k  (std semantics of usize::trailing_zeros)
+#[verifier::external_body]
+pub proof fn axiom_tz_pow2(k: nat)
+    requires k < 64,
+    ensures tz(crate::vspec::pow2(k) as usize) == k,
+{}
 
 #[verifier::external_body]
 pub fn fmt_stub() -> String { String::new() }
